@@ -21,7 +21,14 @@ Two parts.
     error^2 = sum w*sigma^2; RadialProfile = differences of consecutive
     circles; constant image -> the constant; non-negative data -> monotone
     curve of growth; encircled-energy interpolators invert each other on the
-    maximal strictly increasing prefix.
+    maximal strictly increasing prefix.  The whole product runs in BOTH image
+    orientations: the wide scene (21 rows x 23 columns) and the same scene
+    transposed (23 x 21, centre (yc, xc)); each is compared with reference
+    numbers computed for its own shape, so the two orientations also agree with
+    each other (transposition relation) within twice the stated tolerances.
+    For RadialProfile the raw data profile (data_radius, data_profile) of the
+    fresh object is compared, as a multiset of (radius, value) pairs, with the
+    image pixels within the largest radius (documented definition).
 
 (A) explicit-state BFS (mcphot.explorer) over histories of
     normalize('max') / normalize('sum') / unnormalize() / first reads of
@@ -37,7 +44,12 @@ Two parts.
     followed by unnormalize restores every array whenever each array was first
     read).  Roots: class x error map x units x sign structure of the image
     (positive / all negative / max > 0 but sum < 0 / all zero / NaN bin), so
-    that the normalisation constants take both signs, zero, and skip NaNs.
+    that the normalisation constants take both signs, zero, and skip NaNs,
+    x geometry (largest circle inside a wide image / leaving the right and
+    upper edge of a wide image / of a tall image): normalize and unnormalize
+    evaluate data_profile themselves when it was not read before, on a footprint
+    clipped by the image in either orientation.  data_radius is compared with
+    the fresh object in every state.
 """
 import itertools
 import math
@@ -52,7 +64,9 @@ from ..snapshot import key as state_key
 
 PROPERTY = 'C19'
 LEVEL = 'exploration'
-RULE = ('(C) full product: image {non-negative, signed, constant, ring} x [centre {middle, half-pixel, generic, 2 px '
+RULE = ('(C) full product: orientation {wide: 21 rows x 23 columns, tall: the transposed scene, 23 x 21, data.T / '
+        'error.T / mask.T with the centre (yc, xc); the side named by a centre refers to the wide scene, on the tall one '
+        'left<->bottom and right<->top} x image {non-negative, signed, constant, ring} x [centre {middle, half-pixel, generic, 2 px '
         'from the edge, 1 px outside} x radii {integers from 0, integers from 1, non-uniform from 0, 20 fine steps, '
         'beyond the image: a circle leaving on all four sides and circles containing the whole image} + image-edge '
         'geometry on the 21 x 23 (not square) image: centre {4.5 px (a pixel centre), 4.2 px (generic)} from the true '
@@ -65,15 +79,23 @@ RULE = ('(C) full product: image {non-negative, signed, constant, ring} x [centr
         'the user mask}] (16 existing combinations: non-finite error needs an error map, cover needs a user mask and '
         'non-finite pixels; the reference masks user mask | non-finite data | non-finite error) x method {exact, '
         'center, subpixel 5, subpixel 2} '
-        'x class {CurveOfGrowth, RadialProfile} (+ units on the exact method); a case is non-trivial when the '
+        'x class {CurveOfGrowth, RadialProfile} (+ units on the exact method); in every RadialProfile case data_radius / '
+        'data_profile of the fresh object are compared as a multiset of (radius, value) pairs with ALL image pixels '
+        'within the largest radius (found by a loop over the whole image; required: unmasked finite pixels certainly '
+        'inside; either decision accepted: pixels within 1e-12 (1 + rmax) of the circle, masked or non-finite pixels); '
+        'a case is non-trivial when the '
         'largest circle is cut by the image edge (true extent [-0.5, n-0.5]) or by masked pixels, or the radii are '
         'not uniform. '
         '(A) BFS over histories of normalize(max|sum)/unnormalize/first reads/(CurveOfGrowth) calc_ee_at_radius(all '
         'sampled radii)/calc_radius_at_ee(curve values on the strictly increasing prefix) from the full product of roots class '
         '{RadialProfile, CurveOfGrowth} x error map {yes, no} x units {no, yes} x image {positive (max>0, sum>0), '
         'all-negative (max<0, sum<0), positive core on a negative pedestal (max>0, sum<0), all-zero (cannot be '
-        'normalised: no-op), positive with a fully masked annulus (NaN bin)} = 40 roots; in every state profile, '
-        'profile_error, (data_profile when un-normalised), area and radius are compared with the fresh object '
+        'normalised: no-op), positive with a fully masked annulus (NaN bin)} x geometry {inside: largest circle inside '
+        'an 11 x 13 (rows x columns) image, corner-wide: it leaves the right and the upper edge of that image, '
+        'corner-tall: the transposed corner scene, 13 x 11} = 120 roots (thorough); quick: geometry inside x all other '
+        'axes (40 roots) + the two corner geometries x all other axes with units off (40 roots); an array of the fresh '
+        'object that cannot be read is a violation of its own; in every state profile, '
+        'profile_error, (data_profile when un-normalised), area, radius and (RadialProfile) data_radius are compared with the fresh object '
         'scaled by the product of the (signed) normalisation constants; an interpolator call must return the curve of '
         'the current normalisation state / the sampled radii, and in every CurveOfGrowth state '
         'calc_radius_at_ee(calc_ee_at_radius(r_i)) = r_i on the strictly increasing prefix of the curve shown in that '
@@ -86,6 +108,9 @@ ASSUMPTIONS = ['numpy, scipy PchipInterpolator are trusted; photutils.geometry k
                '__dict__ and public knots/coefficients x, c, extrapolate, axis); equal digests have equal futures',
                'non-finite pixels of the data or of the error map are documented to be masked automatically, with or '
                'without a user mask: the reference treats them exactly like user-masked pixels',
+               'the raw data profile (data_radius, data_profile) is, as documented, the set of image pixels whose centre lies '
+               'within the largest radius, in unspecified order; whether masked / non-finite pixels appear in it is not '
+               'specified (accepted either way)',
                'while a profile is normalised by a NEGATIVE constant the sign of profile_error is not specified by the '
                'property: only its magnitude is compared in normalised states; after unnormalize every array must '
                'equal the fresh one, sign included']
@@ -484,6 +509,8 @@ def check_data_profile(acc, case, obj, data, good, ref, radii, pred):
     acc.counters['data_profile_pixels'] += int(rr.size)
     if ref.box_clipped(rmax):
         acc.counters['data_profile_cases_box_clipped_by_image'] += 1
+    # the raw data profile does not depend on the mask / error configuration: the site names the geometry only
+    pred = 'near-edge' if case['centre'] in EDGE_CENTRES else ('box-clipped-by-image' if ref.box_clipped(rmax) else 'box-inside-image')
     if got_r.ndim != 1 or got_r.shape != got_v.shape:
         acc.violation('rp-data-profile', f'shape:{pred}', case, [list(got_r.shape), list(got_v.shape)],
                       'two 1D arrays of equal length')
@@ -875,13 +902,19 @@ def product_cases(tier, cname, mname, orient='wide'):
                                    'unit': un, 'orient': orient}
 
 
+def roots_for(tier):
+    """thorough: the full product of all root axes (120); quick: geometry 'inside' x all other axes (40) + the two
+    corner geometries x class x error map x image with units off (40) -- units and geometry act on disjoint code."""
+    return [r for r, spec in ROOTS.items() if tier == 'thorough' or spec['geom'] == 'inside' or not spec['unit']]
+
+
 def plan(tier, seed):
     units = []
     for orient in ORIENTS:
         for cname in ALL_CENTRES:
             for mname in METHODS:
                 units.append({'kind': 'product', 'centre': cname, 'method': mname, 'orient': orient})
-    for root in ROOTS:
+    for root in roots_for(tier):
         nops = 6 if ROOTS[root]['cls'] == 'rp' else 7        # = len(HSystem.ops) of the quick tier
         nops += 1 if tier == 'thorough' else 0
         for i in range(nops):
@@ -933,7 +966,12 @@ def replay(case, seed):
 
 
 def describe(tier, seed):
-    return {'alphabet': {'image shape (ny, nx)': list(SHAPE), 'images': list(IMAGES),
+    return {'alphabet': {'orientation -> image shape (ny, nx)': {o: list(shape_of(o)) for o in ORIENTS},
+                         'orientation tall': 'the wide scene transposed (data.T, error.T, mask.T, centre (yc, xc)); centre names '
+                                             'and coordinates below are those of the wide scene',
+                         'RadialProfile raw data profile': 'data_radius / data_profile = multiset of (radius, value) of all image '
+                                                           'pixels within the largest radius, in every RadialProfile case',
+                         'images': list(IMAGES),
                          'general centres (x, y)': {k: list(v) for k, v in CENTRES.items()},
                          'general radii (x every general centre)': RADII_THOROUGH if tier == 'thorough' else RADII,
                          'edge-geometry centres (x, y)': {k: list(v) for k, v in EDGE_CENTRES.items()},
@@ -947,11 +985,14 @@ def describe(tier, seed):
                          'non-finite error pixels (finite data there)': [[list(o), repr(v)] for o, v in BAD_ERROR],
                          'error': list(ERRORS), 'methods': list(METHODS),
                          'classes': ['CurveOfGrowth', 'RadialProfile'], 'units': 'on/off for method exact x image nonneg'},
-            'bound': {'history depth': h_depth(tier), 'roots': list(ROOTS),
+            'bound': {'history depth': h_depth(tier), 'roots': roots_for(tier),
+                      'root geometry (ny, nx), (xc, yc); radii 0..5': {g: [list(v[0]), list(v[1])] for g, v in H_GEOM.items()},
                       'root axes': {'class': ['rp', 'cog'], 'error map': [True, False], 'units': [False, True],
+                                    'geometry': list(H_GEOM) if tier == 'thorough' else
+                                    ['inside (x units on/off)', 'corner-wide (units off)', 'corner-tall (units off)'],
                                     'image (sign of profile max, sign of profile sum)': {k: list(v) for k, v in H_SIGNS.items()}},
                       'compared in every state': ['profile', 'profile_error', 'data_profile (un-normalised states)',
-                                                  'area', 'radius', 'normalization_value',
+                                                  'area', 'radius', 'data_radius (RadialProfile)', 'normalization_value',
                                                   'CurveOfGrowth: calc_radius_at_ee(calc_ee_at_radius(r_i)) = r_i on the '
                                                   'strictly increasing prefix'],
                       'ops': ['normalize(max)', 'normalize(sum)', 'unnormalize()', 'read profile', 'read profile_error',
